@@ -28,7 +28,7 @@ except Exception:   # pragma: no cover
     pass
 
 ID = "C14"
-RUNS = {"quick": 60_000, "thorough": 2_000_000}
+RUNS = {"quick": 40_000, "thorough": 2_000_000}
 MAX_BATCH = 2000
 SIM_TIME_UNIT = "virtual seconds"
 RULE = (
